@@ -117,3 +117,8 @@ CHECKS.update({
     "C34": ("6/C34", "Release triples over the component grid {0,1,2,10} (quick) / {0,1,2,9,10,11,99,100} (thorough) x pre-release {none, a/b/rc x {0,1,10}}: PEP 440 -> semver -> PEP 440 over 3-7 input spellings per version and semver -> PEP 440 -> semver; detect_change_type on ALL ordered pairs of the grid (PEP 440 spelling; on the 4-value grid also semver/semver and both mixed spellings = 1.6M calls quick, 27M thorough) compared with packaging.Version ordering and the first differing release component.",
             "Pairs where only the pre-release part grew are evaluated but not judged (the statement defines no answer).", ENUM_TECH),
 })
+
+CHECKS.update({
+    "C32": ("6/C32", "Every display name of length <=3 (quick; plus length 4 over 5 classes) / <=4 (thorough) over 10 character classes (lower, upper, digit, '-', '_', space, e-acute, dotted capital I, sharp s, CJK) plus 112 length-edge names (54..69 chars with hyphens / non-alphanumerics at the cut) and 20 hand-picked Unicode names x 4 scripted suffix draws x 3 availability answer sequences x force_suffix on/off, executed on an AST slice of the current k8s_client.py; DNS-1035 validity, derivation from the name's lowercase ASCII alphanumerics, and presence of the drawn suffix are checked on every call.",
+            "The module imports kubernetes (absent): the two functions are compiled from the current source file and run with scripted random / validate_deployment_id answers. Fix recorded for the short-name suffix defect this check found.", ENUM_TECH),
+})
